@@ -351,6 +351,20 @@ example :
       ("x-top", .arr [.null])]
     v.clean = true ∧ normalB descriptors 40 (.kind "openapi3.T") v = true := by decide
 
+/-- The value of the deep round trip does not depend on the fuel: once `rt` returns a value, every larger fuel
+    returns the same value (any table). So the fuel the driver passes can only matter by running out, which the
+    driver reports as such and the differential run counts as a disagreement — never by changing an answer. -/
+theorem rt_fuel_independent (T : List Desc) (n m : Nat) (h : n ≤ m) (s : Shape) (v r : JV)
+    (hr : rt T n s v = .ok r) : rt T m s v = .ok r :=
+  rt_mono T n m h s v r hr
+
+/-- … hence stability and the normal-form round trip hold across fuels: the first output, computed with any
+    fuel that suffices, is a fixed point under every fuel at least as large -/
+theorem rt_stable_any_fuel_partial (n m : Nat) (h : n ≤ m) (s : Shape) (v v1 : JV) (hc : v.clean = true)
+    (h1 : rt descriptors n s v = .ok v1) : rt descriptors m s v = .ok v1 ∧ rt descriptors m s v1 = .ok v1 :=
+  ⟨rt_fuel_independent descriptors n m h s v v1 h1,
+   rt_fuel_independent descriptors n m h s v1 v1 (rt_stable_partial n s v v1 hc h1)⟩
+
 /-- no reference is invented at any depth: an object that is not a reference (no `$ref` member, or one
     that is not a non-empty string) is not serialised as one (no hypothesis on the input) -/
 theorem rt_invents_no_ref (n : Nat) (s : Shape) (kvs kvs1 : Obj) (hs : refSafe s = true)
